@@ -32,11 +32,11 @@ def compare(vec, line, v, what):
         ok = rep("canary", "%s: memory outside the arena modified" % what)
     return ok
 
-def replay(v, ex, vectors, rnd):
+def replay(v, ex, vectors, rnd, places=None, tag=""):
     cmds, meta = [], []
     for vec in vectors:
-        for place, off in (("E", 0), ("S", rnd.randrange(16))):
-            cmds.append(cmd(vec, place, off)); meta.append((vec, "placement %s+%d" % (place, off)))
+        for place, off in (places if places is not None else (("E", 0), ("S", rnd.randrange(16)))):
+            cmds.append(cmd(vec, place, off)); meta.append((vec, "%splacement %s+%d" % (tag, place, off)))
     outs = ex.run_robust(cmds)
     if len(outs) != len(cmds): raise Infra("executor died in CAN replay: " + ex.stderr[-400:])
     bad = sum(0 if compare(vec, line, v, what) else 1 for (vec, what), line in zip(meta, outs))
